@@ -409,7 +409,7 @@ func TestC06WaitStorm(t *testing.T) {
 	run := vk.New("C06", "wait-storm")
 	defer run.Finish()
 	all := evt.Drivers()
-	n := run.Scale(60, 1500)
+	n := run.Scale(150, 1500)
 	procs := []int{4, 16, 2, 8}
 	defer runtime.GOMAXPROCS(runtime.GOMAXPROCS(0))
 	for i := 0; i < n; i++ {
@@ -421,7 +421,8 @@ func TestC06WaitStorm(t *testing.T) {
 		}
 		w := conc.NewWorld(drivers, rng.Uint64(), true)
 		w.NoisePct = 0
-		w.Subscribe(90, &conc.Reg{T: 0, Class: 0, Async: true})
+		var ticks atomic.Int64
+		w.Subscribe(90, &conc.Reg{T: 0, Class: 0, Async: true, Body: func(*conc.World, *conc.Reg, context.Context, uint64) { ticks.Add(1) }})
 		slowFor := time.Duration(50+rng.IntN(300)) * time.Microsecond
 		w.Subscribe(90, &conc.Reg{T: 1, Class: 0, Async: true, Body: func(*conc.World, *conc.Reg, context.Context, uint64) { time.Sleep(slowFor) }})
 		stop := make(chan struct{})
@@ -442,11 +443,22 @@ func TestC06WaitStorm(t *testing.T) {
 			}(g)
 		}
 		rounds := 15 + rng.IntN(25)
+		sink := 0
 		for r := 0; r < rounds; r++ {
+			// the quick handler's body has run: its goroutine is about to report itself finished, i.e.
+			// the bus is about to become idle; sweep the offset of the next publish around that point
+			before := ticks.Load()
 			w.Publish(0, 0, nil)
+			for ticks.Load() == before {
+				runtime.Gosched()
+			}
+			for k := 0; k < (r%40)*4; k++ {
+				sink += k
+			}
 			w.Publish(0, 1, nil)
 			w.Wait(0)
 		}
+		_ = sink
 		close(stop)
 		wg.Wait()
 		w.Bus.Wait()
